@@ -262,6 +262,35 @@ func generate(w *mon.W) {
 				}
 			}
 		}
+		for _, src := range gen.NameCollisionSources() {
+			do(src)
+		}
+		// every sequence of binary operators, unparenthesized, at three depths
+		// (the parser's precedence loop is re-entered once per looser/tighter step)
+		{
+			bops := []string{"or", "and", "==", "!=", "<", ">=", "+", "-", "*", "/", "%", "in", "=~", "!~"}
+			operands := []string{"a", "b", "1", "x.y", "f(c)", "-d", "'s'", "m[0]"}
+			var rec func(prefix string, depth, k int)
+			rec = func(prefix string, depth, k int) {
+				if depth == 0 {
+					do("T | where " + prefix)
+					do("let v = " + prefix + "; T | extend q = (" + prefix + ") | summarize count() by " + prefix)
+					return
+				}
+				for _, op := range bops {
+					if op == "in" {
+						rec(prefix+" in ("+operands[k%len(operands)]+", 2)", depth-1, k+1)
+						rec(prefix+" in (true)", depth-1, k+1)
+					} else {
+						rec(prefix+" "+op+" "+operands[k%len(operands)], depth-1, k+1)
+					}
+				}
+			}
+			for d := 1; d <= w.Pick(3, 4); d++ {
+				rec("a", d, 1)
+				rec("not(b)", d, 3)
+			}
+		}
 		for _, lit := range append(append([]string{}, gen.IntSpellings...), gen.Lexicon...) {
 			for _, tmpl := range []string{"T | take %s", "T | where a == -%s", "let n = %s; T | top n by a", "T | where m[%s] == 1", "T | extend %s", "T | where %s", "T | sort by %s desc | project %s", "%s"} {
 				do(strings.ReplaceAll(tmpl, "%s", lit))
